@@ -467,7 +467,11 @@ def correspond(ctx):
         for name, src in [("conflicting-issuer", u0.replace("issuer=iss", "issuer=other")), ("duplicate-secret", u0 + "&secret=AAAAAAAAAAAAAAAA"), ("duplicate-issuer", u0 + "&issuer=iss"),
                           ("missing-secret", "otpauth://totp/u?issuer=iss"), ("blank-secret", "otpauth://totp/u?secret=&issuer=iss"), ("unknown-type", u0.replace("//totp/", "//motp/")),
                           ("wrong-scheme", u0.replace("otpauth:", "http:")), ("missing-label", "otpauth://totp/?secret=AAAAAAAAAAAAAAAA"), ("blank-label", "otpauth://totp/%20?secret=AAAAAAAAAAAAAAAA"),
-                          ("issuer-only-label", "otpauth://totp/iss:?secret=AAAAAAAAAAAAAAAA")]:
+                          ("issuer-only-label", "otpauth://totp/iss:?secret=AAAAAAAAAAAAAAAA"),
+                          # the type field is the whole authority: a port, user info or a dotted host around "totp" is an unknown type
+                          ("type-with-port", u0.replace("//totp/", "//totp:8080/")), ("type-with-empty-port", u0.replace("//totp/", "//totp:/")),
+                          ("type-with-userinfo", u0.replace("//totp/", "//hotp@totp/")), ("type-with-userinfo-2", u0.replace("//totp/", "//steam:x@totp/")),
+                          ("type-as-subdomain", u0.replace("//totp/", "//totp.example.org/")), ("type-with-suffix", u0.replace("//totp/", "//totp2/"))]:
             try:
                 TOTP.from_uri(src)
                 got = "accepted"
@@ -492,6 +496,22 @@ def correspond(ctx):
         except Exception as e:  # noqa: BLE001
             got = type(e).__name__
         o_rej.check("hotp", got == "NotImplementedError", {"op": "reject-uri", "uri": "hotp"}, got, "NotImplementedError")
+        # ---- object lifetime: a serialisation made AFTER the key (or another field) of a live object was replaced carries the new value
+        for _ in range(12 if not ctx.thorough else 200):
+            k1, k2 = rng.randbytes(rng.choice([10, 16, 20, 32])), rng.randbytes(rng.choice([10, 16, 20, 35]))
+            t = TOTP(key=k1, format="raw", label="u", issuer="iss", alg=rng.choice(["sha1", "sha256"]))
+            first = rng.sample(["to_uri", "to_dict", "to_json", "pretty_key", "generate", "base32_key", "hex_key"], rng.randrange(1, 4))
+            for m in first:
+                _try(lambda m=m: getattr(t, m)(59) if m == "generate" else (getattr(t, m)() if callable(getattr(type(t), m, None)) else getattr(t, m)))
+            t.key = k2
+            ref = TOTP(key=k2, format="raw", label="u", issuer="iss", alg=t.alg)
+            obs, want = {}, {}
+            for nm, f in (("uri", lambda o: TOTP.from_uri(o.to_uri()).key), ("dict", lambda o: TOTP.from_dict(o.to_dict()).key), ("json", lambda o: TOTP.from_json(o.to_json()).key),
+                          ("pretty", lambda o: o.pretty_key()), ("base32", lambda o: o.base32_key), ("hex", lambda o: o.hex_key), ("token", lambda o: o.generate(59).token)):
+                obs[nm] = _try(lambda f=f: f(t))
+                want[nm] = _try(lambda f=f: f(ref))
+            o_rt.check("key-replaced-after-" + "+".join(sorted(first)), obs == want, {"op": "key-replaced", "first": first, "old_key": k1.hex(), "new_key": k2.hex()},
+                       {k: (v.hex() if isinstance(v, bytes) else v) for k, v in obs.items() if v != want[k]}, "everything follows the new key")
         # ---- wallets (stand-in cipher unless `cryptography` is present)
         wallet_suites(ctx, s_wal, o_wal)
     return merge(s_prim, s_touri, s_furi, s_tdict, s_fdict, s_bad, s_wal, o_rt, o_rej, o_wal, exhaustive=False)
